@@ -545,19 +545,19 @@ type c19Stream struct {
 	buf bytes.Buffer
 }
 
-func (s *c19Stream) Read(b []byte) (int, error)                        { return 0, io.EOF }
-func (s *c19Stream) Write(b []byte) (int, error)                       { return s.buf.Write(b) }
-func (s *c19Stream) Close() error                                      { return nil }
-func (s *c19Stream) CancelRead(quic.StreamErrorCode)                   {}
-func (s *c19Stream) CancelWrite(quic.StreamErrorCode)                  {}
-func (s *c19Stream) StreamID() quic.StreamID                           { return 4 }
-func (s *c19Stream) Context() context.Context                          { return context.Background() }
-func (s *c19Stream) SetDeadline(time.Time) error                       { return nil }
-func (s *c19Stream) SetReadDeadline(time.Time) error                   { return nil }
-func (s *c19Stream) SetWriteDeadline(time.Time) error                  { return nil }
-func (s *c19Stream) SendDatagram(b []byte) error                       { return nil }
-func (s *c19Stream) ReceiveDatagram(context.Context) ([]byte, error)   { return nil, io.EOF }
-func (s *c19Stream) QUICStream() *quic.Stream                          { return nil }
+func (s *c19Stream) Read(b []byte) (int, error)                      { return 0, io.EOF }
+func (s *c19Stream) Write(b []byte) (int, error)                     { return s.buf.Write(b) }
+func (s *c19Stream) Close() error                                    { return nil }
+func (s *c19Stream) CancelRead(quic.StreamErrorCode)                 {}
+func (s *c19Stream) CancelWrite(quic.StreamErrorCode)                {}
+func (s *c19Stream) StreamID() quic.StreamID                         { return 4 }
+func (s *c19Stream) Context() context.Context                        { return context.Background() }
+func (s *c19Stream) SetDeadline(time.Time) error                     { return nil }
+func (s *c19Stream) SetReadDeadline(time.Time) error                 { return nil }
+func (s *c19Stream) SetWriteDeadline(time.Time) error                { return nil }
+func (s *c19Stream) SendDatagram(b []byte) error                     { return nil }
+func (s *c19Stream) ReceiveDatagram(context.Context) ([]byte, error) { return nil, io.EOF }
+func (s *c19Stream) QUICStream() *quic.Stream                        { return nil }
 
 type c19RespIn struct {
 	Status   int   // 0: never call WriteHeader (implicit 200)
